@@ -92,6 +92,7 @@ def make_env(name, script, cfg):
         low=cfg.get("low", (-1.0, 0.0)) if name != "pets" else cfg.get("low", (-1.0,)),
         high=cfg.get("high", (2.0, 3.0)) if name != "pets" else cfg.get("high", (2.0,)),
         reward_fn=cfg.get("reward_fn"),
+        reward_kind=cfg.get("reward_kind"),
     )
 
 
